@@ -24,7 +24,10 @@ RULE = (
     "results (NumPy's SIMD and scalar float loops differ in the last bit); every derived object is a BaseEphysReader. Expressions "
     "NumPy itself rejects on the full array (negative integer powers, out-of-range Python ints) "
     "are rejected and counted. Non-trivial: a reflected operator, or an integer dtype with / // "
-    "**, or a cols op that is not last in its chain, or a node with >=2 children, or a grandchild.")
+    "**, or a cols op that is not last in its chain, or a node with >=2 children, or a grandchild."
+    " Later additions: single-channel selections, column selectors as the caller's own arrays (un"
+    'changed afterwards), results held and re-compared after later reads, relative paths + chdir '
+    'before deriving, hand-made blocks beyond 2**16/2**18 (thorough 2**20) rows.')
 # the arithmetic is NumPy's: under a raising floating-point error state NumPy itself raises (0 ** -1,
 # 0 / 0), so the lazy and the eager side are compared under the default error state
 AMBIENT_EXCLUDE = {'fp': 'reader arithmetic follows the NumPy error state by design', 'warn':
